@@ -3,7 +3,7 @@
    optimized winnability oracle used by the gonality code exact (C01); it is discharged by Link/Termination.v when present. *)
 From Coq Require Import ZArith List Bool.
 Import ListNotations.
-From CF Require Import ZSum ListAux Defs Core RankLink GonLink Termination.
+From CF Require Import ZSum ListAux Defs Core RankLink GonLink Termination TermAll.
 Open Scope Z_scope.
 
 (* a single game: exactly the winnability of the placement after the opponent removes one chip at v *)
@@ -49,6 +49,11 @@ Theorem C04_gonality_connected : forall g, wfb g = true -> connected_b g = true 
      forall P, In P l -> length P = nv g /\ (forall x, In x P -> 0 <= x) /\ lsum P = Z.of_nat j /\ rank_ge (Vg g) (mult g) (nthZ P) 1).
 Proof. intros g Hwf Hc Hn. apply compute_gonality_spec; auto. now apply connected_terminates. Qed.
 Print Assumptions C04_gonality_connected.
+
+Theorem C04_gonality_terminates : forall g, wfb g = true -> connected_b g = true -> (0 < nv g)%nat -> forall maxg fs,
+  exists fuel x, compute_gonality fuel g maxg fs = Done x.
+Proof. exact compute_gonality_terminates. Qed.
+Print Assumptions C04_gonality_terminates.
 
 Example C04_nonvacuous : let K4 := [[0;1;1;1];[1;0;1;1];[1;1;0;1];[1;1;1;0]] in
   compute_gonality 200 K4 4 false = Done (3, [[3;0;0;0]]) /\ compute_gonality 200 K4 2 true = Done (-1, []) /\
